@@ -516,10 +516,12 @@ def gen_call(b, n):
     return {"k": "gen", "basis": b, "n": n}
 
 
-def fit_call(run, b, n, stages=None, data="data.txt", prev=False, seed=1234):
+def fit_call(run, b, n, stages=None, data="data.txt", prev=False, seed=1234, niter=None, nconv=None):
     c = {"k": "fit", "run": run, "basis": b, "n": n, "data": data, "seed": seed, "prev": prev}
     if stages:
         c["stages"] = stages
+    if niter:
+        c["niter"], c["nconv"] = niter, nconv
     return c
 
 
@@ -539,6 +541,13 @@ def random_history(rng, observed, quick):
         r = rng.random()
         if r < 0.15:
             c = dict(observed)                                   # repeated identical call
+        elif r < 0.27 and observed["k"] == "fit" and observed["n"] <= (3 if quick else 4):
+            # the same stage(s) for ANOTHER basis at the SAME complexity, ignore_previous_eqns on, same or other run directory
+            b = rng.choice([x for x in ["core_maths", "ext_maths", "osc_maths"] if x != observed["basis"]])
+            stages = ["fit", "fisher", "match", "combine"][:rng.choice([1, 1, 3, 4])]
+            c = fit_call(rng.choice(RUNS), b, observed["n"], stages=stages, data=rng.choice(DATAS), prev=True)
+        elif r < 0.37:
+            c = gen_call(rng.choice(BASES), rng.randint(1, 2))   # registers a0 only: before a later match stage / bigger generation
         elif r < 0.55:
             b = rng.choice(BASES)
             n = rng.randint(1, nmax)
@@ -582,9 +591,10 @@ class Worker:
             os.makedirs(os.path.dirname(dst), exist_ok=True)
             shutil.copytree(src, dst)
 
-    def run(self, history, observed, pre_mpi=None):
-        """Returns (files: {relname: bytes}, info) or raises RuntimeError."""
-        self.reset(needs_libs(observed))
+    def run(self, history, observed, pre_mpi=None, extra_libs=()):
+        """Returns (files: {relname: bytes}, info) or raises RuntimeError.
+        extra_libs: pristine libraries put in place beforehand (identically in every scenario) besides the observed call's own."""
+        self.reset(sorted(set(needs_libs(observed)) | set(tuple(l) for l in extra_libs)))
         if pre_mpi:
             # an earlier, completed, multi-rank run from ANOTHER process into the same directories
             c, P = pre_mpi
@@ -671,42 +681,69 @@ def stale_demo(ctx, worker):
             "unique_functions": 14}
 
 
+def directed_corpus():
+    """Histories aimed at the known ways for state to survive a call; they run first in both tiers.
+    Entries: (observed, history, pre_mpi, extra_libs) -- extra_libs are pristine libraries put in place beforehand,
+    identically in the fresh and in the history scenario."""
+    small = dict(niter=[8, 4], nconv=[2, 1])       # call arguments (same in both scenarios): keeps the n=5 chain short
+    ext123 = [("ext_maths", 1), ("ext_maths", 2), ("ext_maths", 3)]
+    return [
+        # D1: the same fit call (ignore_previous_eqns on) for ANOTHER basis at the SAME complexity earlier in the process
+        (fit_call("r1", "core_maths", 3, stages=["fit"], prev=True),
+         [fit_call("r1", "ext_maths", 3, stages=["fit"], prev=True)], None, ext123),
+        # D2: generation at a complexity with ONE parameter, then the whole chain at a complexity with two-parameter
+        #     functions (match: load_subs registers a0..a3 in sympy_locs)
+        (fit_call("r1", "core_maths", 5, **small), [gen_call("core_maths", 2)], None, []),
+        # D3: D1 with the whole chain into the same run directory (truncation of every stage output, final_ removal)
+        (fit_call("r1", "core_maths", 3, prev=True), [fit_call("r1", "ext_maths", 3, prev=True)], None, ext123),
+        # D4: generation at complexity 1 and a match stage of another basis before generation with three parameters
+        (gen_call("core_maths", 5), [gen_call("osc_maths", 1), fit_call("r2", "core_maths", 3), gen_call("core_maths", 5)], None,
+         [("core_maths", 3)]),
+    ]
+
+
 def search(ctx):
     rep = ctx.report
     rng = esrv.rng(ctx.seed, "C16-histories")
     nhist = 10 if ctx.quick else 100
+    small = dict(niter=[8, 4], nconv=[2, 1])
     observed_pool = [gen_call("core_maths", 4), gen_call("ext_maths", 3), fit_call("r1", "core_maths", 3),
                      gen_call("keep_duplicates", 3), fit_call("r1", "core_maths", 3, prev=True), gen_call("osc_maths", 4),
                      fit_call("r1", "ext_maths", 3), gen_call("core_maths", 3)]
+    if not ctx.quick:
+        observed_pool += [fit_call("r1", "core_maths", 5, **small), fit_call("r2", "ext_maths", 3, prev=True)]
     if ctx.replay and ctx.replay.get("input", {}).get("observed"):
-        scen = [(ctx.replay["input"]["observed"], ctx.replay["input"]["history"], ctx.replay["input"].get("pre_mpi"))]
+        ri = ctx.replay["input"]
+        scen = [(ri["observed"], ri["history"], ri.get("pre_mpi"), [tuple(l) for l in ri.get("extra_libs", [])])]
     else:
-        scen = []
+        scen = directed_corpus() if not ctx.quick else directed_corpus()[:2]
+        ndir = len(scen)
         for i in range(nhist):
             obs = observed_pool[i % len(observed_pool)] if i < len(observed_pool) else rng.choice(observed_pool)
             hist = random_history(rng, obs, ctx.quick)
             pre = None
-            if obs["k"] == "fit" and (i % 3 == 2):
+            if obs["k"] == "fit" and obs["n"] <= 3 and (i % 3 == 2):
                 pre = (fit_call(obs["run"], rng.choice(["core_maths", "ext_maths"]), obs["n"]), 3)
-            scen.append((obs, hist, pre))
+            scen.append((obs, hist, pre, []))
     libs = set()
-    for obs, hist, pre in scen:
+    for obs, hist, pre, extra in scen:
         libs.update(needs_libs(obs))
+        libs.update(tuple(l) for l in extra)
         if pre:
             libs.update(needs_libs(pre[0]))
     cache = build_cache(ctx, sorted(libs))
-    nwork = 5 if ctx.quick else 8
+    nwork = 6 if ctx.quick else 8
     workers = [Worker(cache) for _ in range(nwork)]
+
+    def bkey(obs, extra):
+        return call_key(obs) + "|" + json.dumps(sorted(list(l) for l in extra))
     # baselines: fresh process, empty output directories
-    obs_list = []
-    for obs, _, _ in scen:
-        if call_key(obs) not in [call_key(o) for o in obs_list]:
-            obs_list.append(obs)
+    base_jobs = []
+    for obs, _, _, extra in scen:
+        if bkey(obs, extra) not in [bkey(o, e) for o, e in base_jobs]:
+            base_jobs.append((obs, extra))
     base = {}
 
-    def do_base(args):
-        i, obs = args
-        return call_key(obs), workers[i % nwork].run([], obs)
     # one worker handles one scenario at a time: chunk the jobs per worker
     def run_jobs(jobs, fn):
         out = []
@@ -721,12 +758,13 @@ def search(ctx):
                 out += lst
         return out
 
-    def job_base(w, obs):
+    def job_base(w, job):
+        obs, extra = job
         try:
-            return call_key(obs), w.run([], obs), None
+            return bkey(obs, extra), w.run([], obs, extra_libs=extra), None
         except RuntimeError as e:
-            return call_key(obs), None, str(e)
-    for key, r, e in run_jobs(obs_list, job_base):
+            return bkey(obs, extra), None, str(e)
+    for key, r, e in run_jobs(base_jobs, job_base):
         if r is None:
             rep.fail("broken-correspondence", "baseline (fresh process) run failed: " + e[:600], "C16:search-driver", observed=e[-1500:],
                      theorem="search")
@@ -734,15 +772,18 @@ def search(ctx):
             base[key] = r
 
     def job_scen(w, sc):
-        obs, hist, pre = sc
+        obs, hist, pre, extra = sc
         try:
-            return sc, w.run(hist, obs, pre_mpi=pre), None
+            return sc, w.run(hist, obs, pre_mpi=pre, extra_libs=extra), None
         except RuntimeError as e:
             return sc, None, str(e)
     results = run_jobs(scen, job_scen)
+    # report in corpus order (directed histories first)
+    order = {id(sc): i for i, sc in enumerate(scen)}
+    results.sort(key=lambda x: order[id(x[0])])
     w0 = workers[0]
-    for (obs, hist, pre), r, e in results:
-        key = call_key(obs)
+    for (obs, hist, pre, extra), r, e in results:
+        key = bkey(obs, extra)
         if key not in base:
             continue
         if r is None:
@@ -752,8 +793,8 @@ def search(ctx):
         files, info = r
         bfiles, binfo = base[key]
         diffs = compare(bfiles, files)
-        rep.case(key=("hist", key, call_key(hist)), nontrivial=len(hist) >= 3,
-                 sample={"observed": obs, "history": [("%s %s %s" % (c["k"], c["basis"], c["n"])) + ("" if c["k"] == "gen" else " run=%s %s" % (c["run"], ",".join(c.get("stages", ["all"])))) for c in hist],
+        rep.case(key=("hist", key, call_key(hist)), nontrivial=len(hist) >= 1,
+                 sample={"observed": obs, "history": [("%s %s %s" % (c["k"], c["basis"], c["n"])) + ("" if c["k"] == "gen" else " run=%s %s%s" % (c["run"], ",".join(c.get("stages", ["all"])), " prev" if c.get("prev") else "")) for c in hist],
                          "multi_rank_pre_history": bool(pre), "files_compared": len(bfiles), "bytes_compared": sum(len(v) for v in bfiles.values()),
                          "differing_files": diffs, "sympy_locs_params_after": info["locs_params"]})
         if not diffs:
@@ -766,7 +807,7 @@ def search(ctx):
                      "output of %s differs between a fresh process and the same call after the (unshrunk) history %s: file %s, %s"
                      % (json.dumps(obs, sort_keys=True), json.dumps(hist), fn, json.dumps(first_diff(bfiles.get(fn, b""), files.get(fn, b"")))),
                      "C16:history-dependence:%s:%s" % (obs["k"], re.sub(r"\d+", "N", fn.split("/")[-1])),
-                     input={"observed": obs, "history": hist, "pre_mpi": pre, "file": fn},
+                     input={"observed": obs, "history": hist, "pre_mpi": pre, "extra_libs": extra, "file": fn},
                      observed=first_diff(bfiles.get(fn, b""), files.get(fn, b"")), expected="byte-identical files")
             continue
         # shrink: shortest prefix of the history that still changes a byte, then drop calls one by one
@@ -775,7 +816,7 @@ def search(ctx):
 
         def differs(h, p):
             try:
-                f2, _ = w0.run(h, obs, pre_mpi=p)
+                f2, _ = w0.run(h, obs, pre_mpi=p, extra_libs=extra)
             except RuntimeError as e:
                 if os.environ.get("ESRV_C16_DEBUG"):
                     print("[shrink] candidate failed:", len(h), str(e)[-300:])
@@ -785,31 +826,40 @@ def search(ctx):
             return compare(bfiles, f2)
         if curpre and differs(cur, None):
             curpre = None
-        lo = 0
-        for klen in range(0, len(cur) + 1):
-            d = differs(cur[:klen], curpre)
-            if d:
-                cur = cur[:klen]
-                diffs = d
-                break
-        i = 0
-        while i < len(cur):
-            cand = cur[:i] + cur[i + 1:]
-            d = differs(cand, curpre)
-            if d:
-                cur = cand
-                diffs = d
+        if len(cur) > 1 or curpre:
+            for klen in range(0, len(cur) + 1):
+                d = differs(cur[:klen], curpre)
+                if d:
+                    cur = cur[:klen]
+                    diffs = d
+                    break
+            i = 0
+            while i < len(cur):
+                cand = cur[:i] + cur[i + 1:]
+                d = differs(cand, curpre)
+                if d:
+                    cur = cand
+                    diffs = d
+                else:
+                    i += 1
+            f2, _ = w0.run(cur, obs, pre_mpi=curpre, extra_libs=extra)
+        else:
+            # a one-call history: only check that the fresh run itself is reproducible (else the history is not the cause)
+            d0 = differs([], None)
+            if d0:
+                cur, diffs = [], d0
+                f2, _ = w0.run(cur, obs, extra_libs=extra)
             else:
-                i += 1
-        f2, _ = w0.run(cur, obs, pre_mpi=curpre)
+                f2 = files
         fn = compare(bfiles, f2)[0] if compare(bfiles, f2) else diffs[0]
         where = first_diff(bfiles.get(fn, b""), f2.get(fn, b""))
+        nlines = sum(1 for a, b2 in zip(bfiles.get(fn, b"").splitlines(), f2.get(fn, b"").splitlines()) if a != b2)
         stage = fn.split("/")[-1]
         rep.fail("failing-input",
-                 "output of %s differs between a fresh process and the same call after the history %s: file %s, %s"
-                 % (json.dumps(obs, sort_keys=True), json.dumps(cur), fn, json.dumps(where)),
+                 "output of %s differs between a fresh process and the same call after the history %s: file %s (%d lines differ; all differing files: %s), %s"
+                 % (json.dumps(obs, sort_keys=True), json.dumps(cur), fn, nlines, compare(bfiles, f2), json.dumps(where)),
                  "C16:history-dependence:%s:%s" % (obs["k"], re.sub(r"\d+", "N", stage)),
-                 input={"observed": obs, "history": cur, "pre_mpi": curpre, "file": fn},
+                 input={"observed": obs, "history": cur, "pre_mpi": curpre, "extra_libs": extra, "file": fn},
                  observed=where, expected="byte-identical files")
     # information: the boundary of the statement, on the real code
     try:
